@@ -12,6 +12,7 @@ RULE = ("well-formed stopping games with absorbing finals (G-DEAD incl. rewarded
         "solved by the real solve() in both pruning modes under a logical step budget of max(2e4, 400*T_max) sweeps; the "
         "solvable/unsolvable split is compared with the exact graph criterion (state 0 in W).  Non-trivial: the game has a dead "
         "(value-0) state reachable from the initial state, a cycle, or an initial value of 0; distinct = game hash.")
+RULE += (' Also (rounds 5-6): G-GAP/G-GAPLOOP (values 1e-9..1e-4 apart around the 6-digit resolution), G-CORR, G-BIGR, G-DIGIT (digit-only / ambiguous action names), G-RETRY (cycles through state 0), G-FINREP (final states listed repeatedly, as list or tuple); a seventh of the solves pass the pruning flag as the int 1/0; an eighth of the batches each run with the root logger at DEBUG, under python -O, and with warnings raised on behalf of the repository turned into errors. G-TAIL: unreachable tails of 1050-1300 states.')
 FLOOR = 300
 REQUIRED = ["solve.ok", "solve.nosol"]
 ASSUMPTIONS = ["'never iterates forever' is decided in its bounded form: a solve must finish within max(2e4, 400*T_max) sweeps' worth of "
